@@ -567,9 +567,8 @@ inline constexpr void Conversion<Unit::Memory, Unit::Memory::Pebibyte>::ToStanda
 }
 
 template <typename NumericType>
-inline const std::map<Unit::Memory,
-                      std::function<void(NumericType* values, const std::size_t size)>>
-    MapOfConversionsFromStandard<Unit::Memory, NumericType>{
+inline constexpr auto MapOfConversionsFromStandard<Unit::Memory, NumericType>{
+  MakeConversionTable<Unit::Memory, NumericType>({
       {Unit::Memory::Bit,      Conversions<Unit::Memory, Unit::Memory::Bit>::FromStandard<NumericType>     },
       {Unit::Memory::Byte,
        Conversions<Unit::Memory,                         Unit::Memory::Byte>::FromStandard<NumericType>    },
@@ -613,12 +612,12 @@ inline const std::map<Unit::Memory,
        Conversions<Unit::Memory,                         Unit::Memory::Petabyte>::FromStandard<NumericType>},
       {Unit::Memory::Pebibyte,
        Conversions<Unit::Memory,                         Unit::Memory::Pebibyte>::FromStandard<NumericType>},
+})
 };
 
 template <typename NumericType>
-inline const std::map<Unit::Memory,
-                      std::function<void(NumericType* const values, const std::size_t size)>>
-    MapOfConversionsToStandard<Unit::Memory, NumericType>{
+inline constexpr auto MapOfConversionsToStandard<Unit::Memory, NumericType>{
+  MakeConversionTable<Unit::Memory, NumericType>({
       {Unit::Memory::Bit,      Conversions<Unit::Memory, Unit::Memory::Bit>::ToStandard<NumericType>     },
       {Unit::Memory::Byte,     Conversions<Unit::Memory, Unit::Memory::Byte>::ToStandard<NumericType>    },
       {Unit::Memory::Kilobit,
@@ -661,6 +660,7 @@ inline const std::map<Unit::Memory,
        Conversions<Unit::Memory,                         Unit::Memory::Petabyte>::ToStandard<NumericType>},
       {Unit::Memory::Pebibyte,
        Conversions<Unit::Memory,                         Unit::Memory::Pebibyte>::ToStandard<NumericType>},
+})
 };
 
 }  // namespace Internal
